@@ -420,6 +420,23 @@ def r2(ck, prog, run):
                     found=obj_summary(o), nontrivial=True)
             exp_b = want if not (hname in ("compute", "persist") and backend == "numpy") else "numpy"
             ck.same("R3", fi.where, f"z.{hname}() [{backend}]: container", f"result is {exp_b}-backed", (d.backend or "numpy") == exp_b, found=str(d.backend))
+    # ... and a signal of zero samples (what a crop of everything leaves) is a signal like any other: the helpers hand it back, still empty
+    for hname in ("compute", "persist", "to_dask_array", "rechunk"):
+        fi = prog.func("Signal." + hname)
+        for backend in ("numpy", "dask"):
+            z0 = make_signal(prog, "RadioSignal", n=0, nchan=2, backend=backend)
+            ev = ck.evaluator()
+            try:
+                o = ev.call(fi, [], {}, self_val=z0)
+                d0 = o.attrs.get("_data") if isinstance(o, ObjV) else None
+                ck.same("R3", fi.where, f"z.{hname}() on a signal of zero samples [{backend}]", "hands back an empty signal of the same class and metadata",
+                        isinstance(o, ObjV) and o.cls is z0.cls and not meta_same(z0, o) and isinstance(d0, Num) and d0.shape is not None and d0.shape[0] == 0,
+                        found=obj_summary(o), nontrivial=True)
+            except Raised as e:
+                ck.same("R3", fi.where, f"z.{hname}() on a signal of zero samples [{backend}]", "hands back an empty signal of the same class and metadata", False,
+                        found=f"raises {str(e)[:140]}", nontrivial=True)
+            except Unsupported as e:
+                ck.unk("R3", fi.where, f"z.{hname}() on a signal of zero samples [{backend}]", "evaluates", str(e)[:200])
 
 
 def _data_term(d):
